@@ -191,6 +191,7 @@ class Exec:
         self.loud_after_fault = 0
         self.samples = []
         self.sched_sigs = set()
+        self.enumerating = False
 
     # -- reference -----------------------------------------------------------
     def reference(self, v):
@@ -653,8 +654,17 @@ class Exec:
                 self.do_load(j, st["entry"], None, "load", pid)
             elif op == "LOAD_FAULT":
                 f = st["fault"]
+                if f["at"] is None and self.enumerating:
+                    # only one enumeration per branch: inside another step's
+                    # enumeration this one is sampled
+                    f = dict(f, at=random.Random(f"{self.knobs['tick_seed']}:at:{j}").randrange(0, 60))
+                    st = dict(st, fault=f)
                 if f["at"] is None:
-                    self._enumerate_load_fault(j, st)
+                    self.enumerating = True
+                    try:
+                        self._enumerate_load_fault(j, st)
+                    finally:
+                        self.enumerating = False
                     return
                 self._seed_ticks(j, f["at"])
                 self.branch[j] = {"at": f["at"]}
@@ -665,12 +675,24 @@ class Exec:
             elif op == "RACE" and st["sched"]["kind"] == "sandwich" and (
                 st["sched"].get("i") is None or st["sched"].get("j") is None
             ):
-                self._enumerate_sandwich(j, st)
+                if self.enumerating and st["sched"].get("j") is None:
+                    sc = dict(st["sched"], j=random.Random(f"{self.knobs['tick_seed']}:j:{j}").randrange(0, 30))
+                    st = dict(st, sched=sc)
+                was = self.enumerating
+                self.enumerating = True
+                try:
+                    self._enumerate_sandwich(j, st)
+                finally:
+                    self.enumerating = was
                 return
             elif op == "RACE":
                 f = st.get("fault")
-                if f is not None and self.enumerate_races and f.get("at") is not None and not st.get("_enumerated"):
-                    self._enumerate_race(j, st)
+                if f is not None and self.enumerate_races and f.get("at") is not None and not self.enumerating:
+                    self.enumerating = True
+                    try:
+                        self._enumerate_race(j, st)
+                    finally:
+                        self.enumerating = False
                     return
                 self._seed_ticks(j, "-")
                 self.do_race(j, st, f["at"] if f else None)
